@@ -44,10 +44,9 @@ def r2(ctx, prog):
                 raise AnalysisBroken('%s: no access to Cell::obj_ptr and no delegation to at()' % f.name)
         for a in accs:
             gs = f.cfg.controlling_branches(q.pt(f, a))
-            null_t = any(any(c2.get('fn') == 'isNull' for c2 in q.subtree_calls(f, c)) and k == 1 for c, k, b in gs)
-            range_t = any(any(c2.get('fn') == 'pos' for c2 in q.subtree_calls(f, c)) and any(c2.get('fn') == 'size' for c2 in q.subtree_calls(f, c)) and
-                          f.s(f.strip_casts(c)).get('op') == '>=' and k == 1 for c, k, b in gs)
-            id_t = any(f.s(f.strip_casts(c)).get('op') == '==' and k == 0 and any(c2.get('fn') == 'id' for c2 in q.subtree_calls(f, c)) and 'cell.id' in q.subtree_paths(f, c) for c, k, b in gs)
+            null_t = any(q.edge_holds(f, c, k, 'token.isNull()', '==', '0') for c, k, b in gs)
+            range_t = any(q.edge_holds(f, c, k, 'token.pos()', '<', 'cells_.size()') for c, k, b in gs)
+            id_t = any(q.edge_holds(f, c, k, 'cell.id', '==', 'token.id()') for c, k, b in gs)
             ctx.ob('C08.R2', 'Cabinet::%s|guards' % m, null_t and range_t and id_t, 'obj_ptr access guarded by !isNull (%s), pos < size (%s), id match (%s)' % (null_t, range_t, id_t), where=f.loc(a['i']))
         # the cell examined is the one at token.pos()
         ats = [st for st in f.stmts if st and st['k'] in q.CALL_KINDS and (st.get('fn') == 'at' or st.get('op') == '[]') and 'obj' in st and f.path(st['obj']) == 'cells_']
